@@ -1,5 +1,7 @@
 CFG = {
-    "modules": ["Parsley.Props.C06"],
+    "modules": ["Parsley.Props.C06", "Parsley.Lemmas.FiltersA85", "Parsley.Lemmas.FiltersInflate", "Parsley.Lemmas.A85Reject",
+                "Parsley.Lemmas.InflateReject", "Parsley.Lemmas.InflateFixedBits", "Parsley.Lemmas.InflateFixed",
+                "Parsley.Spec.DeflateFixed"],
     "theorems": [
         "Parsley.C06.hex_roundtrip", "Parsley.C06.a85_roundtrip",
         "Parsley.C06.flate_glue_complete", "Parsley.C06.flate_glue_rejects",
@@ -8,35 +10,71 @@ CFG = {
         "Parsley.C06.dict_pruned", "Parsley.C06.filters_shape", "Parsley.C06.corrupt_is_error",
         "Parsley.C06.flate_old_glue_truncates", "Parsley.C06.hex_old_witness",
         "Parsley.C06.hex_old_parity_witness", "Parsley.C06.a85_old_witness",
+        # C06c: ASCII85 rejection side at full strength (Lemmas/A85Reject.lean), bundled in a85_corrupt_is_error
+        "Parsley.C06.a85_corrupt_is_error", "Parsley.C06.a85Decode_cases", "Parsley.C06.a85_illegal_char_any",
+        "Parsley.C06.a85_uniws_interior", "Parsley.C06.a85Crate_leading_uniws", "Parsley.C06.a85_stray_tilde",
+        "Parsley.C06.a85_z_inside_group", "Parsley.C06.a85_z_inside_group_spec", "Parsley.C06.a85_group_overflow",
+        "Parsley.C06.a85_single_digit_final",
+        # C06c: damaged stored-block zlib streams (Lemmas/InflateReject.lean), through the glue in flate_stored_corrupt_is_error
+        "Parsley.C06.flate_stored_corrupt_is_error", "Parsley.C06.flateDecode_err_transform",
+        "Parsley.C06.inflate_stored_truncated", "Parsley.C06.inflate_stored_adler_altered",
+        "Parsley.C06.inflate_stored_adler_byte", "Parsley.C06.inflate_stored_adler_byte_set",
+        "Parsley.C06.inflate_stored_len_altered", "Parsley.C06.inflate_stored_len_byte",
+        "Parsley.C06.inflate_stored_len_byte_set", "Parsley.C06.inflate_stored_len_byte_set_final",
+        "Parsley.C06.inflate_stored_roundtrip_hdr", "Parsley.C06.inflate_header_fcheck_altered",
+        "Parsley.C06.inflate_header_cmf_altered", "Parsley.C06.inflate_header_flg_altered",
+        "Parsley.C06.inflate_header_altered",
+        # C06c: fixed-Huffman round trip over the spec-side encoder Spec/DeflateFixed.lean (Lemmas/InflateFixed.lean)
+        "Parsley.C06.flate_fixed_roundtrip", "Parsley.C06.inflate_fixed_roundtrip_final",
+        "Parsley.C06.inflate_fixed_roundtrip", "Parsley.C06.inflate_fixed_literals_roundtrip",
+        "Parsley.C06.inflate_fixed_literals_final_roundtrip", "Parsley.C06.zlibFixedLiterals_eq",
+        "Parsley.C06.inflate_zlibFixedLiterals_roundtrip",
     ],
     "partial": {
         "flate_huffman_roundtrip (not a theorem)":
-            "inflate_stored_roundtrip proves the executable Lean inflate only for zlib streams made of stored blocks "
-            "(any partition, any trailing bytes). Fixed- and dynamic-Huffman blocks are implemented executably in "
-            "Model/Inflate.lean and enter chain_roundtrip through the hypothesis `Inflate.inflate e = ok x` "
-            "(LayerEnc.flateAny); that the real zlib and the Lean inflate agree on Huffman streams is established by the "
-            "correspondence run only (payloads compressed by the real zlib at levels 0-9, all boundary sizes, both "
-            "decoders must return the payload).",
+            "PROVED now: stored blocks (inflate_stored_roundtrip: any partition, any trailing bytes) and FIXED-Huffman "
+            "blocks (inflate_fixed_roundtrip_final / flate_fixed_roundtrip: the stream the spec-side encoder "
+            "Spec/DeflateFixed.lean writes from ANY valid LZ77 factorisation - literals and <length, distance> pairs, "
+            "every length/distance symbol and extra-bit value, overlapping copies, copies reaching into earlier blocks, "
+            "any cutting into blocks, final block empty or not - decodes to the payload; the older literal-only generator "
+            "encoder is an instance: zlibFixedLiterals_eq). STILL NOT a theorem: DYNAMIC-Huffman blocks (implemented "
+            "executably in Model/Inflate.lean; they enter chain_roundtrip through the hypothesis `Inflate.inflate e = ok x`, "
+            "LayerEnc.flateAny) and streams mixing block types; that the real zlib and the Lean inflate agree on those is "
+            "established by the correspondence run only (payloads compressed by the real zlib at levels 0-9, all boundary "
+            "sizes, both decoders must return the payload). That the executable greedy factoriser of the generators "
+            "(DeflateFixed.factorise) always yields a valid factorisation is not proved either: the judge evaluates the "
+            "theorem's hypothesis (`resolveBlocks ... = some payload`) on every generated case.",
         "Parsley.C06.corrupt_is_error":
-            "proved for: illegal ASCIIHex character, missing ASCIIHex EOD, misaligned ASCII85 z, every stream the zlib "
-            "decoder rejects (glue never returns partial output; errors propagate through outer layers). NOT proved as "
-            "theorems (covered by executed `example`s and the `mal` correspondence stream): that an illegal ASCII85 "
-            "character and an ASCII85 group >= 2^32 are rejected for all positions, and that every truncation / "
-            "checksum flip of a zlib stream is rejected by the Lean inflate.",
+            "the statement of corrupt_is_error itself is unchanged (illegal ASCIIHex character, missing ASCIIHex EOD, "
+            "misaligned ASCII85 z, every stream the zlib decoder rejects; errors propagate through outer layers). The "
+            "corruptions it left to executed examples are now theorems for ALL inputs: a85_corrupt_is_error (illegal "
+            "character at any position, stray ~, VT/U+0085/U+00A0 inside, z inside any group, group >= 2^32 in any group, "
+            "single-digit final group - with the real code's leniencies stated exactly: a lone final digit !..r is dropped "
+            "silently, leading/trailing VT/U+0085/U+00A0 are trimmed, bytes after the EOD are still examined) and "
+            "flate_stored_corrupt_is_error (every truncation, every altered byte of the Adler-32 trailer, of a LEN/NLEN "
+            "field of any block, of FCHECK / CMF; the three FLG values that differ only in FLEVEL are accepted: "
+            "inflate_header_flg_altered). STILL NOT proved as theorems (covered by the `mal` and `fz` correspondence "
+            "streams): truncations / bit flips of HUFFMAN-coded zlib streams, and alterations of stored-block DATA bytes "
+            "(these change the payload and are caught by the Adler-32 only with the checksum's own strength).",
     },
     "n": {"quick": 300, "thorough": 6000},
     "exhaustive": {"quick": False, "thorough": False},
     "rustgen": True,
     "shrink": False,
     "rule": "corpus (DESIGN 4 #6-#10 inputs, trim/framing oddities) first; rt: recipes built by the Lean spec encoders - every "
-            "chain of length <= 2 (quick; all 84 chains <= 3 thorough) over {ASCIIHex, ASCII85, Flate-stored, Flate-fixed-Huffman} "
+            "chain of length <= 2 (quick; all 258 chains <= 3 thorough) over {ASCIIHex, ASCII85, Flate-stored, Flate-fixed-Huffman "
+            "literal block, Flate-fixed-Huffman LZ77 factorisation closed by an empty block / with a data-carrying final block} "
             "x payload lengths {0..5,7,8,9,16,17,63} x {/Filter name, array, array + parallel /DecodeParms} x EOL after "
-            "data {none, LF, CRLF, CR}; payloads of 32767..100000 bytes (thorough: to 3 MB) in stored blocks of any partition; "
+            "data {none, LF, CRLF, CR}; payloads of 32767..100000 bytes (thorough: to 3 MB) in stored blocks of any partition and (to 200000 bytes) in "
+            "fixed-Huffman blocks; fixed-Huffman factorisations written by the spec encoder Spec/DeflateFixed.lean for 56 (thorough "
+            "168) seed classes (candidate distances 1..32768 hitting every distance symbol, match cap 3..258, both spellings of "
+            "length 258, forced literals, 1..100000 tokens per block) x self-similar payloads with period 1..32768 - the judge "
+            "checks each factorisation with the spec's resolveBlocks, and BOTH the real zlib and the Lean inflate must return the payload; "
             "random recipes (white space sprinkled by seed, digit case, odd-digit shorthand, z / !!!!! per group, partition "
             "of stored blocks, parameter dictionaries {null, <<>>, <</Predictor 1>>, <</Colors 3 /Columns 5>>}); sh: 12 "
             "/Filter x /DecodeParms shapes (5 accepted, 6 rejected, 1 lenient) x chain length 0..3 x 4 parameter variants, "
             "unknown filter name at every position; mal: 13 corruptions (illegal char, missing EOD, misaligned z, group "
-            ">= 2^32, truncated zlib, Adler-32 flip, header check, LEN/NLEN, method) on outermost and inner layers; rz "
+            ">= 2^32, truncated zlib, Adler-32 flip, header check, LEN/NLEN or first Huffman code, method; on all four Flate encoders) on outermost and inner layers; rz "
             "(native generator): payloads of 23 boundary sizes 0..100000 (+1 MiB; thorough to 4 MiB) x 5 content kinds "
             "compressed by the REAL zlib at every level 0-9, and random chains <= 3 with real-zlib Flate layers; fz: random "
             "bytes and single-byte mutations of valid encodings (correspondence and no-panic only, judged `skip`). "
@@ -48,7 +86,8 @@ CFG = {
         "staged chars and u32 overflow checks of the dev profile: the harness is built with overflow-checks = true; in a "
         "release build an ASCII85 group >= 2^32 would wrap silently inside the crate instead of being caught)",
         "modelled, not verified: flate2 read::ZlibDecoder + zlib as the executable Lean inflate (Model/Inflate.lean; "
-        "stored blocks proved, Huffman blocks by correspondence with real zlib output at levels 0-9); std::io::Read::read_to_end "
+        "stored and fixed-Huffman blocks proved against the spec-side encoders, dynamic-Huffman blocks by correspondence with "
+        "real zlib output at levels 0-9); std::io::Read::read_to_end "
         "as `readToEnd` over a pull-style decoder with a progress measure",
         "rz cases: the harness's native generator (flate2 compressor, small hex/ASCII85 writers) is trusted to emit encodings "
         "of the payload it states; the judge only compares the implementation's output with that payload",
@@ -70,14 +109,23 @@ LEVEL = {
             "hex case, odd-digit shorthand, z or !!!!! per zero group, 2-4 digit final group, any partition into stored "
             "blocks, any bytes after the zlib trailer or the hex EOD), that the model of ASCIIHexDecode, ASCII85Decode and "
             "FlateDecode returns exactly the payload (hex_roundtrip, a85_roundtrip incl. the base-85 arithmetic and absence "
-            "of u32 overflow, inflate_stored_roundtrip); that the Flate glue returns the whole payload for EVERY correct "
-            "streaming decoder however it chunks, and an error whenever the decoder fails after any number of chunks "
-            "(flate_glue_complete / flate_glue_rejects - the theorem the 32 KiB truncation falsified); that chains of any length "
-            "decode to the payload with the dictionary pruned of exactly /Filter and /DecodeParms (chain_roundtrip, "
-            "decode_stream_roundtrip, dict_pruned); the full /Filter x /DecodeParms decision table (filters_shape); and that "
-            "the unambiguous corruptions are errors that propagate through outer layers (corrupt_is_error, partial: see "
-            "coverage.partial_theorems). Huffman-coded zlib streams are NOT covered by a theorem: the executable Lean inflate "
-            "is tied to the real zlib (levels 0-9) and the whole model to decode_stream by the correspondence run of every "
-            "check. Three defects of /repo (Flate truncation at 32 KiB / truncated streams accepted; ASCIIHex rejecting all "
-            "input; ASCII85 rejecting z) are witnessed by theorems about the pre-repair glue and repaired by pending_fixes/C06-01..03.",
+            "of u32 overflow, inflate_stored_roundtrip); that the Lean inflate and the Flate glue return the payload for the "
+            "fixed-Huffman stream written by a spec-side DEFLATE encoder from ANY valid LZ77 factorisation (literals, "
+            "length/distance pairs, overlapping and cross-block copies, any block cutting: inflate_fixed_roundtrip_final, "
+            "flate_fixed_roundtrip - bit-level: LSB-first fields, MSB-first codes of 7/8/9 and 5 bits); that the Flate glue "
+            "returns the whole payload for EVERY correct streaming decoder however it chunks, and an error whenever the decoder "
+            "fails after any number of chunks (flate_glue_complete / flate_glue_rejects - the theorem the 32 KiB truncation "
+            "falsified); that chains of any length decode to the payload with the dictionary pruned of exactly /Filter and "
+            "/DecodeParms (chain_roundtrip, decode_stream_roundtrip, dict_pruned); the full /Filter x /DecodeParms decision "
+            "table (filters_shape); and the rejection side for ALL inputs: corrupt_is_error (ASCIIHex, propagation through "
+            "outer layers), a85_corrupt_is_error (illegal character at any position, stray ~, z inside a group, group >= 2^32, "
+            "single-digit final group - stating exactly where the real code is more lenient than ISO 32000: a lone final digit "
+            "!..r is dropped, leading/trailing VT/U+0085/U+00A0 are trimmed) and flate_stored_corrupt_is_error (every "
+            "truncation and every altered Adler-32 / LEN / NLEN / FCHECK / CMF byte of a stored-block stream is a "
+            "TransformError). DYNAMIC-Huffman zlib streams and corruptions of Huffman-coded streams are NOT covered by a "
+            "theorem: there the executable Lean inflate is tied to the real zlib (levels 0-9) and the whole model to "
+            "decode_stream by the correspondence run of every check, which also runs the real zlib on the spec encoders' "
+            "fixed-Huffman output. Three defects of /repo (Flate truncation at 32 KiB / truncated streams accepted; ASCIIHex "
+            "rejecting all input; ASCII85 rejecting z) are witnessed by theorems about the pre-repair glue and repaired by "
+            "pending_fixes/C06-01..03.",
 }
